@@ -58,7 +58,7 @@ func NewMLeaf(si *world.SchemaInfo, p world.Path, lex string) *MLeaf {
 
 // scalarTV builds a typed value for one lexical scalar in the requested input form.
 func scalarTV(t *sdcpb.SchemaLeafType, lex string, form string) *sdcpb.TypedValue {
-	if form == "string" {
+	if form == "string" || form == "string!" {
 		return &sdcpb.TypedValue{Value: &sdcpb.TypedValue_StringVal{StringVal: lex}}
 	}
 	switch t.GetType() {
@@ -119,9 +119,14 @@ func MkTV(n *world.Node, lex string, form string) *sdcpb.TypedValue {
 		return &sdcpb.TypedValue{Value: &sdcpb.TypedValue_EmptyVal{EmptyVal: &emptypb.Empty{}}}
 	case world.KLeafList:
 		arr := &sdcpb.ScalarArray{}
+		// leaf-list elements given as strings are a C12 subject (form "string!"); history checks keep elements typed
+		ef := "typed"
+		if form == "string!" {
+			ef = "string"
+		}
 		if lex != "" {
 			for _, e := range strings.Split(lex, ",") {
-				arr.Element = append(arr.Element, scalarTV(n.Type, e, form))
+				arr.Element = append(arr.Element, scalarTV(n.Type, e, ef))
 			}
 		}
 		return &sdcpb.TypedValue{Value: &sdcpb.TypedValue_LeaflistVal{LeaflistVal: arr}}
